@@ -25,6 +25,7 @@ import (
 	"go/token"
 	"os"
 	"path"
+	"path/filepath"
 	"sort"
 	"strconv"
 	"strings"
@@ -104,11 +105,28 @@ func handle(line string) (out string) {
 		return "ok " + hexFiles(fs)
 	case (f[0] == "load" || f[0] == "loadd") && len(args) == 1:
 		fset := token.NewFileSet()
-		file, err := parser.ParseFile(fset, args[0], nil, parser.ParseComments)
-		if err != nil {
-			return "parse-error"
+		var files []*ast.File
+		if st, serr := os.Stat(args[0]); serr == nil && st.IsDir() {
+			// a whole package: every .go file of the directory, in name order (as the build hands them to LoadDirectives)
+			ents, _ := os.ReadDir(args[0])
+			for _, e := range ents {
+				if e.IsDir() || !strings.HasSuffix(e.Name(), ".go") {
+					continue
+				}
+				file, err := parser.ParseFile(fset, filepath.Join(args[0], e.Name()), nil, parser.ParseComments)
+				if err != nil {
+					return "parse-error"
+				}
+				files = append(files, file)
+			}
+		} else {
+			file, err := parser.ParseFile(fset, args[0], nil, parser.ParseComments)
+			if err != nil {
+				return "parse-error"
+			}
+			files = append(files, file)
 		}
-		vm, err := goembed.LoadDirectives(fset, []*ast.File{file})
+		vm, err := goembed.LoadDirectives(fset, files)
 		if err != nil {
 			return "err"
 		}
